@@ -25,7 +25,7 @@ import population
 THEOREMS = ["Nmfu.C10_ok_consumes_chunk", "Nmfu.C10_cursor_within_chunk", "Nmfu.C10_fail_absorbing", "Nmfu.C10_fail_absorbing_empty_chunk",
             "Nmfu.C10_yield_resume_exact", "Nmfu.noStuck_of_leavesOK", "Nmfu.C10_end_fail_is_final", "Nmfu.C10_end_fail_then_empty_chunk",
             "Nmfu.emptyFails_failTarget", "Nmfu.C10_fail_is_final", "Nmfu.runOps_good", "Nmfu.apiStep_of_failed",
-            "Nmfu.C10_cannot_fail"]
+            "Nmfu.C10_cannot_fail", "Nmfu.C10_session_fail_is_final", "Nmfu.start_good"]
 
 
 def parse(lines):
@@ -67,6 +67,8 @@ def work(job):
     if "endFailOK=false" in wf:
         res["corr"].append({"kind": "endFailOK fails: some FAIL of end() does not leave the fail state behind", "args": case.args})
     # hypotheses of C10_fail_is_final (or, for a parser that has no way to fail, of C10_cannot_fail)
+    if "startClosed=false" in wf:
+        res["corr"].append({"kind": "startClosed fails: start() can leave a state outside the table", "args": case.args})
     if "failClosed=false" in wf:
         res["corr"].append({"kind": "failClosed fails: some call leaves a state outside the table, or a FAIL leaves another index than failTarget", "args": case.args})
     if "emptyFailsTarget=false" in wf:
